@@ -89,7 +89,14 @@ func randKey(r *Rng) []Sx {
 	if r.Chance(1, 14) { // a key callback that writes nothing
 		return []Sx{}
 	}
-	switch r.Intn(5) {
+	switch r.Intn(7) {
+	case 5: // keys that agree in their first 8, 9, 16 encoded bytes (word-at-a-time comparators)
+		fam := []string{"accept-encoding", "accept-language", "accept-datetime", "accept-charset", "abcdefg1", "abcdefg2", "abcdefgh1", "abcdefgh2", "abcdefghi",
+			"0123456789abcdeX", "0123456789abcdeY", "0123456789abcdefX", "0123456789abcdefY", "abcdefg", "abcdefgh"}
+		return []Sx{it("t", B([]byte(fam[r.Intn(len(fam))])))}
+	case 6:
+		fam := [][]byte{{1, 2, 3, 4, 5, 6, 7, 8}, {1, 2, 3, 4, 5, 6, 7, 9}, {1, 2, 3, 4, 5, 6, 7, 8, 0}, {1, 2, 3, 4, 5, 6, 7, 8, 1}, {1, 2, 3, 4, 5, 6, 7}, {1, 2, 3, 4, 5, 6, 7, 8, 9, 10, 11, 12, 13, 14, 15, 16, 0}, {1, 2, 3, 4, 5, 6, 7, 8, 9, 10, 11, 12, 13, 14, 15, 16, 1}}
+		return []Sx{it("b", B(fam[r.Intn(len(fam))]))}
 	case 0:
 		return []Sx{it("u", Zu(uint64(r.Intn(40))))}
 	case 1:
@@ -253,6 +260,9 @@ func genC11(r *Rng, tier string) []Case {
 		{it("t", B([]byte("a"))), it("t", B([]byte("b"))), it("t", B([]byte("aa"))), it("t", B([]byte(""))), it("t", B(buf[:24]))},
 		{it("b", B([]byte{1})), it("u", Zi(0x41)), it("t", B([]byte{1})), it("b", B([]byte{})), it("i", Zi(-1))},
 		{it("t", B([]byte("digest"))), it("t", B([]byte(":status"))), it("t", B([]byte("content-type"))), it("t", B([]byte("content-encoding"))), it("t", B([]byte("mi-draft2")))},
+		// keys that agree in their first 8 / 9 / 16 / 17 encoded bytes and differ right after
+		{it("t", B([]byte("accept-encoding"))), it("t", B([]byte("accept-language"))), it("t", B([]byte("accept-datetime"))), it("t", B([]byte("accept-charsets"))), it("t", B([]byte("accept-encodinG")))},
+		{it("b", B([]byte{1, 2, 3, 4, 5, 6, 7, 9, 0})), it("b", B([]byte{1, 2, 3, 4, 5, 6, 7, 8, 1})), it("b", B([]byte{1, 2, 3, 4, 5, 6, 7, 8, 0})), it("t", B([]byte("0123456789abcdeYa"))), it("t", B([]byte("0123456789abcdeXb")))},
 	}
 	for _, ks := range keysets {
 		for n := 0; n <= len(ks); n++ {
